@@ -321,6 +321,59 @@ func c01KeyAtRank(c *Ctx, a *sketchAnchors, rule string) {
 					if !strict {
 						bad = "qualifying test is not the strict `cumulative > rank`: " + t.Key()
 					}
+					// the cumulative weight is a running SUM: cum = φ(0, cum + weight) (a difference, or a sum that does not
+					// start at 0, is not the weight below the bin)
+					{
+						var phi *ssa.Phi
+						var step *ssa.BinOp
+						switch o := other.(type) {
+						case *ssa.BinOp:
+							step = o
+							if p, ok := o.X.(*ssa.Phi); ok {
+								phi = p
+							} else if p, ok := o.Y.(*ssa.Phi); ok {
+								phi = p
+							}
+						case *ssa.Phi:
+							phi = o
+							for _, e := range o.Edges {
+								if b, ok := e.(*ssa.BinOp); ok && (b.X == ssa.Value(o) || b.Y == ssa.Value(o)) {
+									step = b
+								}
+							}
+						}
+						if phi != nil && step != nil {
+							zero, back := false, false
+							for _, e := range phi.Edges {
+								if k, ok := e.(*ssa.Const); ok && k.Value != nil && k.Value.String() == "0" {
+									zero = true
+								}
+								if e == ssa.Value(step) {
+									back = true
+								}
+							}
+							if step.Op != token.ADD || !zero || !back {
+								bad = firstNonEmpty(bad, "the cumulative weight is not a running sum from 0: "+step.String())
+							}
+						}
+					}
+					// … and it is the TRUE outcome that selects the bin: as an `if`, its taken branch returns; as the
+					// value of a predicate it is returned as it is, not negated
+					if refs := bo.Referrers(); refs != nil {
+						for _, r := range *refs {
+							switch r := r.(type) {
+							case *ssa.If:
+								taken := r.Block().Succs[0]
+								if _, isRet := taken.Instrs[len(taken.Instrs)-1].(*ssa.Return); !isRet {
+									bad = firstNonEmpty(bad, "the bin is selected when `cumulative > rank` is FALSE")
+								}
+							case *ssa.UnOp:
+								if r.Op == token.NOT {
+									bad = firstNonEmpty(bad, "the qualifying test is negated")
+								}
+							}
+						}
+					}
 				}
 			}
 		}
